@@ -9,13 +9,13 @@ def run(tier, only=None):
         results += run_lemma(tier, only)
     except ImportError:
         pass
-    try:
-        from ..pfam import run_family
-        pr, pinfo = run_family("C13", tier, only)
-        results += pr
-        info.update(pinfo)
-    except ImportError:
-        pass
+    from .. import pfam, prun
+    from families import f06
+
+    progs = [p for p in f06.programs(tier) if any(t in p.text for t in ("repartition", "L.a + R.a", "[['a']] + R", "assign(z=R.a)"))]
+    pr, pinfo = pfam.run(progs, lambda p: prun.check_reference(p, validate=1) + prun.check_divisions(p), only)
+    results += pr
+    info.update({k: v for k, v in pinfo.items() if k != "samples"})
     cov = {
         "states": sum(1 for r in results),
         "transitions": sum(r.queries for r in results),
@@ -28,5 +28,7 @@ def run(tier, only=None):
         "methods.concat / _concat append their inputs in list order (trusted)",
         "input divisions are truthful and partitions are sorted by index",
         "CrossHair's path exploration is exhaustive when it reports 'Confirmed over all paths'",
+        "P: end-to-end repartition(divisions= / npartitions=) and aligned binary operations on sources with symbolic index labels (duplicates across borders, empty partitions): "
+        "output rows sequence-equal to the unpartitioned reference and inside the new divisions, for all labels",
     ]
     return "model_checking", results, cov, assumptions
